@@ -112,6 +112,16 @@ class C18(PureCheck):
                     k += 1
                     yield {"op": "query", "extra": enc.enc_text(ex), "row": r, "col": c, "csi8": k % 2,
                            "trailing": enc.enc_text(trailings[k % 4]), "faults": [], "cb": cb, "cbset": 1}
+        # a terminal that changes the form of its reports between queries (S7C1T / S8C1T toggled, a reattached session):
+        # earlier queries answered with one introducer, this one with the other - and the same form all along as control
+        for cb in (0, 1):
+            for p8 in ([0], [1], [0, 0], [1, 0], [0, 1]):
+                for csi8 in (0, 1):
+                    for ex in ("", "x"):
+                        k += 1
+                        prior = [{"extra": [], "row": 2 + j, "col": 3, "csi8": c8} for j, c8 in enumerate(p8)]
+                        yield {"op": "query", "extra": enc.enc_text(ex), "row": vals[k % 5], "col": vals[(k // 2) % 5], "csi8": csi8,
+                               "trailing": enc.enc_text(trailings[k % 4]), "faults": [], "cb": cb, "prior": prior, "enc": "latin-1"}
         # characters outside ASCII typed ahead of the report, on utf-8 and latin-1 streams (7-bit reports on both)
         for ex in ("\xe9", "x\xe9", "\xe9\x1b[1", "\xff\xe9", "\u20ac", "a\u65e5"):
             for encname in ("utf-8", "latin-1"):
@@ -206,7 +216,7 @@ class C18(PureCheck):
                     # earlier queries on the same window (their outcome - a position, or ValueError for input ahead of the
                     # report when there is no callback - is not recorded); nothing of them is left in the stream
                     saved = ins.chars
-                    ins.chars = list(enc.dec_text(pr["extra"]) + "\x1b[%d;%dR" % (pr["row"], pr["col"]))
+                    ins.chars = list(enc.dec_text(pr["extra"]) + ("\x9b" if pr.get("csi8") else "\x1b[") + "%d;%dR" % (pr["row"], pr["col"]))
                     try:
                         win.get_cursor_position()
                     except Exception:  # noqa
